@@ -83,6 +83,8 @@ func RuleClass(err error) string {
 		return "state_root"
 	case has("context canceled"):
 		return "cancelled"
+	case has("no active validators"):
+		return "no_active_validators"
 	}
 	return "other"
 }
